@@ -245,16 +245,22 @@ func TestC10_enum_Coop(t *testing.T) {
 		kit.Check(t, kit.Prop[c10Case]{ID: "C10", Run: runC10})
 		return
 	}
-	d := kit.NewDirect[c10Case](t, "C10", "exhaustive: 7 limiter kinds x 6 actor sets (one with a waiter that releases the moment it is granted) x all spawn orders x yields in {0,1,3}^k (k=6; thorough k=9); non-trivial as TestC10_sampled_Coop")
+	d := kit.NewDirect[c10Case](t, "C10", "exhaustive: 7 limiter kinds x 6 actor sets (one with a waiter that releases the moment it is granted) + for evicting queue limiters that waiter also cancelled by a further actor x all spawn orders x yields in {0,1,3}^k (k=6; thorough k=9); non-trivial as TestC10_sampled_Coop")
 	k := 6
 	if kit.Thorough() {
 		k = 9
 	}
 	vals := []uint8{0, 1, 3}
-	sets := []struct{ limit, h, w, relay int }{{1, 1, 1, 0}, {1, 1, 2, 0}, {2, 2, 1, 0}, {2, 1, 2, 0}, {2, 2, 2, 0}, {1, 1, 2, 1}} // relay: the first waiter completes its token the moment it is granted
+	// relay: the first waiter completes its token the moment it is granted; cancel: that waiter's context is also
+	// cancelled by a further actor of the scenario (a give-up that may coincide with the hand-off to it; evicting
+	// queue limiters only, where a cancellation makes the waiter leave)
+	sets := []struct{ limit, h, w, relay, cancel int }{{1, 1, 1, 0, 0}, {1, 1, 2, 0, 0}, {2, 2, 1, 0, 0}, {2, 1, 2, 0, 0}, {2, 2, 2, 0, 0}, {1, 1, 2, 1, 0}, {1, 1, 2, 1, 1}}
 	for _, base := range c10Kinds {
 		for _, s := range sets {
-			for _, order := range permutations(s.h + s.w) {
+			if s.cancel > 0 && !(base.Kind == "queue" && base.Evict) {
+				continue
+			}
+			for _, order := range permutations(s.h + s.w + s.cancel) {
 				total := 1
 				for i := 0; i < k; i++ {
 					total *= len(vals)
@@ -269,6 +275,9 @@ func TestC10_enum_Coop(t *testing.T) {
 					c := c10Case{Stack: base, Waiters: s.w, Order: order, Yields: ys}
 					if s.relay > 0 {
 						c.Relays = []int{0}
+					}
+					if s.cancel > 0 {
+						c.Cancels = []int{0}
 					}
 					if base.Kind != "queue" {
 						c.Ghosts = (code / 3) % 3
